@@ -43,6 +43,8 @@ package ez
 //@          && arg0.CallGlobalCallbacksAfterVerificationEnabled && !arg0.SkipInitialVerification
 //@     assert C18_callbacks_passed_through: arg0.OnNewConfig == params.OnNewConfig && arg0.OnWatchedError == params.OnWatchedError
 //@     assert C18_defaults_are_the_callers_struct: arg2 == cfg
+//@   at call *.ConfigPath:
+//@     assert C18_the_path_is_only_ever_read_from_the_fileless_stack: arg0 == basecfg
 //@   at call (TP)(basecfg).ConfigPath:
 //@     assert C18_path_read_from_the_fileless_view: rec_blankSetSource_cnt == old(rec_blankSetSource_cnt)
 //@          && rec_enableVerification_cnt == old(rec_enableVerification_cnt) && arg0 == basecfg
